@@ -177,9 +177,12 @@ func WriteDAG(repo repository.RepoData, pool *Pool, s Spec) ([]repository.Hash, 
 		if err != nil {
 			return nil, err
 		}
-		entries := []repository.TreeEntry{
-			{ObjectType: repository.Blob, Hash: empty, Name: fmt.Sprintf("version-%d", formatVersion)},
-			{ObjectType: repository.Blob, Hash: blob, Name: "ops"},
+		entries := []repository.TreeEntry{{ObjectType: repository.Blob, Hash: blob, Name: "ops"}}
+		if c.Ver == nil {
+			entries = append(entries, repository.TreeEntry{ObjectType: repository.Blob, Hash: empty, Name: fmt.Sprintf("version-%d", formatVersion)})
+		}
+		for _, e := range c.Ver {
+			entries = append(entries, repository.TreeEntry{ObjectType: repository.Blob, Hash: empty, Name: "version-" + e})
 		}
 		for _, e := range c.Edit {
 			entries = append(entries, repository.TreeEntry{ObjectType: repository.Blob, Hash: empty, Name: "edit-clock-" + e})
